@@ -82,7 +82,6 @@ check(
     "trusted: z3; stub Errors self without scope/watchers; --pretty marker arithmetic only when the K3 section is present in evidence",
     "symbolic execution of real Python source with z3 (decision-replay)",
     "DESIGN.md 4/C14",
-    thorough=False,
 )
 
 check(
